@@ -15,6 +15,7 @@ import (
 	"os"
 	"path/filepath"
 	"strconv"
+	"strings"
 )
 
 var fset = token.NewFileSet()
@@ -29,6 +30,114 @@ func fail(n ast.Node, format string, a ...any) {
 }
 
 func str(e ast.Node) string { return types.ExprString(e.(ast.Expr)) }
+
+func lowerFirst(s string) string { return strings.ToLower(s[:1]) + s[1:] }
+
+// Subscribe and subscribe differ only in case: the Lean names are subscribeApiBody / subscribeBody.
+func suffix(name string) string {
+	if name == "Subscribe" {
+		return "Api"
+	}
+	return ""
+}
+
+func quoteAll(items []string) string {
+	var q []string
+	for _, it := range items {
+		q = append(q, strconv.Quote(it))
+	}
+	return strings.Join(q, ",\n  ")
+}
+
+func block(b *ast.BlockStmt) string {
+	var items []string
+	for _, st := range b.List {
+		if c := canon(st); c != "" {
+			items = append(items, c)
+		}
+	}
+	return "{" + strings.Join(items, "; ") + "}"
+}
+
+// canon prints a statement in a canonical one-line form; verifhook.Point calls vanish; any
+// statement kind not listed here is an unknown shape.
+func canon(st ast.Stmt) string {
+	switch n := st.(type) {
+	case *ast.ExprStmt:
+		if call, ok := n.X.(*ast.CallExpr); ok && str(call.Fun) == "verifhook.Point" {
+			return ""
+		}
+		return str(n.X)
+	case *ast.DeferStmt:
+		if fl, ok := n.Call.Fun.(*ast.FuncLit); ok {
+			return "defer func" + block(fl.Body)
+		}
+		return "defer " + str(n.Call)
+	case *ast.GoStmt:
+		fl, ok := n.Call.Fun.(*ast.FuncLit)
+		if !ok {
+			fail(n, "go statement without a function literal")
+		}
+		return "go func" + block(fl.Body)
+	case *ast.IfStmt:
+		if n.Init != nil || n.Else != nil {
+			fail(n, "if with init or else")
+		}
+		return "if " + str(n.Cond) + " " + block(n.Body)
+	case *ast.RangeStmt:
+		k, v := "_", "_"
+		if n.Key != nil {
+			k = str(n.Key)
+		}
+		if n.Value != nil {
+			v = str(n.Value)
+		}
+		return "for " + k + ", " + v + " := range " + str(n.X) + " " + block(n.Body)
+	case *ast.ForStmt:
+		if n.Init != nil || n.Cond != nil || n.Post != nil {
+			fail(n, "for with clauses")
+		}
+		return "for " + block(n.Body)
+	case *ast.SelectStmt:
+		var cases []string
+		for _, c := range n.Body.List {
+			cc := c.(*ast.CommClause)
+			if cc.Comm == nil {
+				fail(cc, "select with default")
+			}
+			var body []string
+			for _, b := range cc.Body {
+				if x := canon(b); x != "" {
+					body = append(body, x)
+				}
+			}
+			cases = append(cases, "case "+canon(cc.Comm)+": "+strings.Join(body, "; "))
+		}
+		return "select{" + strings.Join(cases, " | ") + "}"
+	case *ast.SendStmt:
+		return str(n.Chan) + " <- " + str(n.Value)
+	case *ast.AssignStmt:
+		var l, r []string
+		for _, e := range n.Lhs {
+			l = append(l, str(e))
+		}
+		for _, e := range n.Rhs {
+			r = append(r, str(e))
+		}
+		return strings.Join(l, ", ") + " " + n.Tok.String() + " " + strings.Join(r, ", ")
+	case *ast.IncDecStmt:
+		return str(n.X) + n.Tok.String()
+	case *ast.ReturnStmt:
+		if len(n.Results) != 0 {
+			fail(n, "return with results")
+		}
+		return "return"
+	case *ast.BranchStmt:
+		return n.Tok.String()
+	}
+	fail(st, "statement kind %T", st)
+	return ""
+}
 
 func main() {
 	repo := flag.String("repo", "/repo", "")
@@ -133,13 +242,17 @@ func main() {
 	ast.Inspect(subscribe, func(n ast.Node) bool {
 		switch n := n.(type) {
 		case *ast.CompositeLit:
+			kv := map[string]string{}
 			for _, el := range n.Elts {
-				if kv, ok := el.(*ast.KeyValueExpr); ok && str(kv.Key) == "id" {
-					if str(kv.Value) != "id" {
-						fail(kv, "entry id is %s", str(kv.Value))
-					}
-					entryOK = true
+				if e, ok := el.(*ast.KeyValueExpr); ok {
+					kv[str(e.Key)] = str(e.Value)
 				}
+			}
+			if _, ok := kv["id"]; ok {
+				if kv["id"] != "id" || kv["ch"] != "bufferedCh" || kv["closeEventCh"] != "closeEventCh" || len(kv) != 3 {
+					fail(n, "entry literal is %v", kv)
+				}
+				entryOK = true
 			}
 		case *ast.RangeStmt:
 			if str(n.X) != "b.eventChs" || n.Key == nil || n.Value == nil {
@@ -174,6 +287,29 @@ func main() {
 	if !removalOK {
 		fail(subscribe, "no removal loop over b.eventChs")
 	}
+
+	// ---- statement shapes of Subscribe, subscribe (incl. the forwarder), Broadcast, Close ----
+	funcs := map[string]*ast.FuncDecl{}
+	for _, d := range f.Decls {
+		if fd, ok := d.(*ast.FuncDecl); ok {
+			funcs[fd.Name.Name] = fd
+		}
+	}
+	shapes := ""
+	for _, name := range []string{"Subscribe", "subscribe", "Broadcast", "Close"} {
+		fd := funcs[name]
+		if fd == nil {
+			fail(nil, "func %s not found", name)
+		}
+		var items []string
+		for _, st := range fd.Body.List {
+			if c := canon(st); c != "" {
+				items = append(items, c)
+			}
+		}
+		shapes += fmt.Sprintf("\n/-- body of `%s` (hook points and comments removed), one canonical string per statement -/\ndef %sBody : List String := [%s]\n",
+			name, lowerFirst(name)+suffix(name), quoteAll(items))
+	}
 	src := fmt.Sprintf(`/-! GENERATED by harness/cmd/factgen_c11 from /repo/events/broadcaster/broadcaster.go — do not edit. -/
 namespace Kit.Generated.C11
 
@@ -191,9 +327,9 @@ def entryCarriesId : Bool := true
 
 /-- the forwarder's removal loop ranges over b.eventChs, tests `+"`eventCh.id == id`"+`, removes that one index and breaks -/
 def removalByIdFirstMatch : Bool := true
-
+%s
 end Kit.Generated.C11
-`, bufSize, writes)
+`, bufSize, writes, shapes)
 	if *out == "" {
 		fmt.Print(src)
 		return
